@@ -7,6 +7,7 @@
 From Coq Require Import List NArith Bool.
 Import ListNotations.
 From PyccoloV Require Import model.SysTrace proofs.SysTraceProofs.
+From PyccoloV Require gen.SysFlags model.SysHist proofs.SysHistProofs.
 
 (* for every run, every subscription (any subset of call/line/return/exception) and every third-party trace function
    installed before: the handlers are invoked exactly once per subscribed interpreter event of accepted frames, in
@@ -35,4 +36,39 @@ Example C09_nonvacuous :
   handler_log (run ex_cfg VSys ex_run) = [(SRet, 2); (SRet, 1)] /\
   third_log (run ex_cfg VSys ex_run) =
     [(WG, SCall, 1); (WL, SLine, 1); (WG, SCall, 2); (WG, SCall, 3); (WL, SLine, 3); (WL, SRet, 3); (WL, SLine, 1); (WL, SRet, 1)].
+Proof. vm_compute. split; reflexivity. Qed.
+
+(* HISTORIES: user code calls sys.settrace(A) / sys.settrace(B) / sys.settrace(None) while the program runs (model/SysHist.v: a plain
+   machine for CPython's protocol with a mutable global trace function, a pyccolo machine in which the global function is always the
+   composed tracer and `existing_tracer` is what user code last installed).  gen/SysFlags.v is REGENERATED from tracer.py and says whether
+   _call_existing_tracer skips an uninstalled third party and whether frames the tracer does not trace get a composed local function; the
+   theorem is stated for those flags, so it only type-checks while both hold.
+   For every family of third-party functions, every subscription, every run (frames the tracer accepts or not, nested, with settrace
+   calls anywhere) and every function installed beforehand: the function in place afterwards is the one user code left, the third-party
+   functions receive exactly the events they receive without pyccolo (each through the same one of its functions), and the handlers see
+   the plain event stream of the accepted frames filtered by the subscription - also while no third-party function is installed. *)
+Theorem C09_histories : forall tps sub n g,
+  fst (SysHist.pyc tps sub SysFlags.sys_checks_uninstall SysFlags.sys_wraps_foreign g n) = fst (SysHist.plain tps g n) /\
+  SysHist.third_log (snd (SysHist.pyc tps sub SysFlags.sys_checks_uninstall SysFlags.sys_wraps_foreign g n)) = snd (SysHist.plain tps g n) /\
+  SysHist.handler_log (snd (SysHist.pyc tps sub SysFlags.sys_checks_uninstall SysFlags.sys_wraps_foreign g n)) =
+    filter (fun e => sub (fst e)) (SysHist.events n).
+Proof. intros tps sub n g. exact (SysHistProofs.all_good tps sub n g). Qed.
+Print Assumptions C09_histories.
+
+(* the two repaired defects, kept as checked witnesses (an uninstalled function still called in a running frame: of an accepted file,
+   of a file the tracer does not accept) *)
+Theorem C09_histories_refuted :
+  SysHist.third_log (snd (SysHist.pyc SysHistProofs.tp_all (fun _ => true) false true (Some 0%nat) (SysHistProofs.ex_hist true))) <>
+    snd (SysHist.plain SysHistProofs.tp_all (Some 0%nat) (SysHistProofs.ex_hist true)) /\
+  SysHist.third_log (snd (SysHist.pyc SysHistProofs.tp_all (fun _ => true) true false (Some 0%nat) (SysHistProofs.ex_hist false))) <>
+    snd (SysHist.plain SysHistProofs.tp_all (Some 0%nat) (SysHistProofs.ex_hist false)).
+Proof. exact (conj SysHistProofs.no_uninstall_check_refuted SysHistProofs.raw_foreign_refuted). Qed.
+Print Assumptions C09_histories_refuted.
+
+Example C09_histories_nonvacuous :
+  let n := SysHist.Nd (SysHist.TFrame true 1) [SysHist.Nd SysHist.TLine []; SysHist.Nd (SysHist.TSet None) []; SysHist.Nd SysHist.TLine [];
+                                               SysHist.Nd (SysHist.TSet (Some 1%nat)) []; SysHist.Nd SysHist.TLine []] in
+  snd (SysHist.plain SysHistProofs.tp_all (Some 0%nat) n) =
+    [(SysHist.WG 0, SysHist.SCall, 1); (SysHist.WL 0, SysHist.SLine, 1); (SysHist.WL 0, SysHist.SLine, 1); (SysHist.WL 0, SysHist.SRet, 1)] /\
+  fst (SysHist.plain SysHistProofs.tp_all (Some 0%nat) n) = Some 1%nat.
 Proof. vm_compute. split; reflexivity. Qed.
